@@ -179,6 +179,9 @@ def run(tier):
             if not ep["free_same"]:
                 viol.setdefault(("never_fires", ep["name"]), dict(kind="oracle", oracle="never_fires", entry_point=ep["name"], input_id=o["id"], sql=srcs[o["id"]]["sql"],
                                 detail="under a context that never fires the result differs from the context-free call", k=-1, ctx="none"))
+            if ep.get("late_cancel_ran") and not ep.get("late_cancel_same"):
+                viol.setdefault(("residue_late_cancel", ep["name"]), dict(kind="oracle", oracle="residue_late_cancel", entry_point=ep["name"], input_id=o["id"], sql=srcs[o["id"]]["sql"],
+                                detail="the context was cancelled after the call had returned; a later context-free call on the same instance no longer gives the result of a new instance (the parser kept the context)", k=-1, ctx="late"))
             nid = errflow.ep_node(an, ep["name"])
             for r in ep["runs"]:
                 nruns += 1
@@ -385,6 +388,8 @@ def replay(path):
     for ep in outs[0]["eps"]:
         if not ep["free_same"]:
             bad.append((ep["name"], -1, ("never_fires", "")))
+        if ep.get("late_cancel_ran") and not ep.get("late_cancel_same"):
+            bad.append((ep["name"], -1, ("residue_late_cancel", "")))
         for r in ep["runs"]:
             bad += [(ep["name"], r["k"], b) for b in run_oracle(ep, r)]
     want = d.get("oracle")
